@@ -1,15 +1,99 @@
+//! hx_gql — correspondence harness for C29 (relay's graphql-syntax crate) and C30 (the compiler's
+//! schema parser).
+//!
+//! Request:  op \t hex(document)        op = exec | sdl (HX_ENGINE=relay)   schema | ext (HX_ENGINE=schema)
+//! Answer:   accept \t TREE [\t RT] | reject | panic
+//!   TREE = canonical location-free S-expression (same format as lean/IsoVerif/Model/GqlAst.lean);
+//!   RT (sdl only) = result of printing the parsed schema with relay's own printer and parsing the
+//!   text again: `same`, `reject`, `panic`, or the differing tree.
+mod gen;
+mod sexp;
+
 use common::SourceLocationKey;
 use common_lang_types::TextSource;
+use hx_common::{main_loop, unhex, Rng};
 use intern::string_key::Intern;
+use std::panic::{catch_unwind, AssertUnwindSafe};
+
+fn run_exec(doc: &str) -> String {
+    match catch_unwind(AssertUnwindSafe(|| {
+        graphql_syntax::parse_executable(doc, SourceLocationKey::generated())
+            .ok()
+            .map(|d| sexp::relay_exec_doc(&d))
+    })) {
+        Err(_) => "panic".into(),
+        Ok(None) => "reject".into(),
+        Ok(Some(t)) => format!("accept\t{}", t),
+    }
+}
+
+fn parse_sdl(doc: &str) -> Result<Option<(String, String)>, ()> {
+    catch_unwind(AssertUnwindSafe(|| {
+        graphql_syntax::parse_schema_document(doc, SourceLocationKey::generated())
+            .ok()
+            .map(|d| (sexp::relay_schema_doc(&d), format!("{}", d)))
+    }))
+    .map_err(|_| ())
+}
+
+fn run_sdl(doc: &str) -> String {
+    match parse_sdl(doc) {
+        Err(_) => "panic".into(),
+        Ok(None) => "reject".into(),
+        Ok(Some((tree, printed))) => {
+            let rt = match parse_sdl(&printed) {
+                Err(_) => "panic".to_string(),
+                Ok(None) => "reject".to_string(),
+                Ok(Some((t2, _))) => {
+                    if t2 == tree {
+                        "same".to_string()
+                    } else {
+                        t2
+                    }
+                }
+            };
+            format!("accept\t{}\t{}", tree, rt)
+        }
+    }
+}
+
+fn run_schema(doc: &str, ext: bool) -> String {
+    let ts = TextSource { relative_path_to_source_file: "dummy".intern().into(), span: None };
+    match catch_unwind(AssertUnwindSafe(|| {
+        if ext {
+            graphql_schema_parser::parse_schema_extensions(doc, ts).ok().map(|d| sexp::iso_ext_doc(&d, doc))
+        } else {
+            graphql_schema_parser::parse_schema(doc, ts).ok().map(|d| sexp::iso_doc(&d, doc))
+        }
+    })) {
+        Err(_) => "panic".into(),
+        Ok(None) => "reject".into(),
+        Ok(Some(t)) => format!("accept\t{}", t),
+    }
+}
+
 fn main() {
-    let args: Vec<String> = std::env::args().collect();
-    let doc = &args[2];
-    let r = std::panic::catch_unwind(|| match args[1].as_str() {
-        "exec" => format!("{:?}", graphql_syntax::parse_executable(doc, SourceLocationKey::generated()).map_err(|e| e.len())),
-        "sdl" => format!("{:?}", graphql_syntax::parse_schema_document(doc, SourceLocationKey::generated()).map_err(|e| e.len())),
-        "schema" => format!("{:?}", graphql_schema_parser::parse_schema(doc, TextSource { relative_path_to_source_file: "dummy".intern().into(), span: None }).map_err(|e| e.0.message.clone())),
-        "ext" => format!("{:?}", graphql_schema_parser::parse_schema_extensions(doc, TextSource { relative_path_to_source_file: "dummy".intern().into(), span: None }).map_err(|e| e.0.message.clone())),
-        _ => "?".into(),
-    });
-    println!("{:?}", r.map_err(|_| "PANIC"));
+    let engine = std::env::var("HX_ENGINE").unwrap_or_else(|_| "relay".into());
+    let gen_fn = move |r: &mut Rng, i: u64| -> Vec<String> { gen::gen_case(&engine, r, i) };
+    let mut run_fn = |f: &[&str]| -> String {
+        if f.len() != 2 {
+            return "bad-op".into();
+        }
+        let bytes = match unhex(f[1]) {
+            Some(b) => b,
+            None => return "bad-op".into(),
+        };
+        let doc = match String::from_utf8(bytes) {
+            Ok(s) => s,
+            Err(_) => return "bad-op".into(),
+        };
+        match f[0] {
+            "exec" => run_exec(&doc),
+            "sdl" => run_sdl(&doc),
+            "schema" => run_schema(&doc, false),
+            "ext" => run_schema(&doc, true),
+            _ => "bad-op".into(),
+        }
+    };
+    main_loop(&gen_fn, &mut run_fn);
 }
